@@ -197,7 +197,8 @@ def config_menu(n, ints):
     # iteration / node limits: whatever is returned under a tiny budget must still be feasible and honestly labelled
     for lim in (dict(max_iter=1), dict(max_iter=2), dict(max_iter=3), dict(max_nodes=1), dict(max_nodes=2), dict(max_iter=2, max_nodes=2)):
         cfgs.append(lim)
-        cfgs.append(dict(lim, heuristics=False))
+        if full or len(lim) == 1 and list(lim.values())[0] == 1:
+            cfgs.append(dict(lim, heuristics=False))
     return cfgs
 
 
